@@ -1175,7 +1175,53 @@ fn c18_oracle(sc: &Scenario, ex: &Execution, info: &mut CaseInfo) -> Vec<Finding
         info.nontrivial = false;
         return Vec::new();
     }
-    keep(orc::verdict_findings(&h, false), &["CallDoesNotReturn", "CallBlocks"])
+    let mut f = keep(orc::verdict_findings(&h, false), &["CallDoesNotReturn", "CallBlocks"]);
+    // freeze sweep: with one thread suspended for good, a try operation of another thread that is
+    // found blocked on a lock when nothing can run any more is waiting for the suspended thread
+    if sc.opts.freeze.is_some() {
+        info.class("one_thread_frozen_for_good");
+        let frozen_in_call = ex
+            .outcome
+            .threads
+            .iter()
+            .find(|t| t.blocked == Some(crate::rt::Block::Frozen))
+            .map(|t| t.activity.kind != 0 && t.activity.kind < 100)
+            .unwrap_or(false);
+        info.class(format!("frozen_inside_an_api_call={}", frozen_in_call));
+        info.nontrivial = frozen_in_call;
+        for th in &ex.outcome.threads {
+            let k = th.activity.kind;
+            let is_try = k == CallKind::TrySend.code() || k == CallKind::TryRecv.code() || k == CallKind::TryView.code() || k == CallKind::TryIterNext.code();
+            if is_try && matches!(th.blocked, Some(crate::rt::Block::Mutex(_)) | Some(crate::rt::Block::Cond { .. })) {
+                f.push(h.base_facts(Finding::new(
+                    "CallBlocks",
+                    format!(
+                        "with thread {} suspended for good at its point {}, thread {} is blocked inside {:?} ({:?})",
+                        sc.opts.freeze.unwrap().0,
+                        sc.opts.freeze.unwrap().1,
+                        th.tid,
+                        CallKind::from_code(k),
+                        th.blocked
+                    ),
+                )));
+            }
+        }
+    }
+    f
+}
+
+fn freeze_strategy(_t: Tier) -> BoxedStrategy<Scenario> {
+    // traffic (with forks) and churn on busy / yielding queues, without the solo probes
+    prop_oneof![
+        2 => gen::traffic(
+            gen::qcfg(BOTH, FutMode::Never, gen::cap_small(), gen::wait_no_notify()),
+            TrafficParams { max_values: 4, max_producers: 2, max_consumers: 2, w_try: 6, w_send: 2, w_clone_rx: 2, w_clone_tx: 2, leave: 2, fork: 3, ..TrafficParams::default() },
+            300,
+            probe_opts(),
+        ),
+        1 => gen::churn_scenario_with(probe_opts(), 8, gen::wait_no_notify(), FutMode::Never),
+    ]
+    .boxed()
 }
 
 
@@ -1543,8 +1589,13 @@ pub fn registry() -> Vec<PropDef> {
                 name: "probes_during_churn",
                 source: Source::Random { strategy: probe_churn_strategy, cases: cases_fn!(1500, 25000) },
                 oracle: c18_oracle,
+            },
+            Part {
+                name: "freeze_sweep",
+                source: Source::FreezeSweep { strategy: freeze_strategy, cases: cases_fn!(12, 120) },
+                oracle: c18_oracle,
             }],
-            rule: "traffic on busy/yielding queues, and handle/stream churn scenarios (enough retirements to open reclamation epochs, so that the manager locks are taken and the epoch signal is raised); at generated points one thread freezes all others wherever they are and runs a single try_send / try_recv / try_recv_view alone; oracle = the call returns within 300 of its own scheduling points and never blocks on a lock held by a frozen thread; in addition EVERY try operation of every execution (not only the probes) may execute at most 300 scheduling points in a row without another thread changing shared state in between; non-trivial = the probe ran while another thread was frozen strictly inside an API call",
+            rule: "traffic on busy/yielding queues, and handle/stream churn scenarios (enough retirements to open reclamation epochs, so that the manager locks are taken and the epoch signal is raised); at generated points one thread freezes all others wherever they are and runs a single try_send / try_recv / try_recv_view alone; oracle = the call returns within 300 of its own scheduling points and never blocks on a lock held by a frozen thread; in addition EVERY try operation of every execution (not only the probes) may execute at most 300 scheduling points in a row without another thread changing shared state in between; part freeze_sweep: for every generated scenario and every (thread, k <= 400) one execution in which that thread is suspended for good at its k-th scheduling point while the others run on - none of their try operations may spin (same bound) or be found blocked on a lock; non-trivial = the probe ran while another thread was frozen strictly inside an API call (freeze sweep: the suspended thread was inside an API call)",
             assumptions: vec![SC_ASSUME, SAMPLE_ASSUME],
         },
         PropDef {
